@@ -2,6 +2,7 @@ package harness
 
 import (
 	"fmt"
+	"strings"
 )
 
 // ---------------------------------------------------------------------------
@@ -24,6 +25,76 @@ var hostileGroups = []string{"g", "g,flatten", "g,soft", "g,bogus", ",flatten", 
 var rawValues = []string{"nil", "int", "string", "struct", "ptr", "nilfunc", "nilfuncin", "slice", "map", "chan", "nilptr", "in", "out", "err"}
 
 var rawAsValues = []string{"nil", "int", "ptrstruct", "ptrptr", "iface", "ptrerr", "ptrany", "func", "I0", "I1", "I2"}
+
+// genTag draws a struct tag: one of the fixed hostile tags or a composition
+// of 1-3 key:"value" pairs over dig's tag keys (and foreign ones) with values
+// from small hostile vocabularies, joined by assorted separators.
+func (g *gen) genTag(lbl string) string {
+	if g.pct(35, lbl+"fixed") {
+		return g.pickStr(hostileTags, lbl+"f")
+	}
+	n := 1 + g.pick(3, lbl+"n")
+	var parts []string
+	for i := 0; i < n; i++ {
+		l := fmt.Sprintf("%s%d", lbl, i)
+		key := g.pickStr([]string{"name", "group", "optional", "ignore-unexported", "json", "Name", "soft", "flatten"}, l+"k")
+		var val string
+		switch key {
+		case "name", "Name":
+			val = g.pickStr(hostileNames, l+"nv")
+		case "group":
+			val = g.pickStr([]string{"g", "h", "", "<i>", "a b", "g g"}, l+"gb")
+			for j, m := 0, g.pick(3, l+"gs"); j < m; j++ {
+				val += g.pickStr([]string{",flatten", ",soft", ",bogus", ",", ",Flatten", ", soft", ",flatten,soft"}, fmt.Sprintf("%sgs%d", l, j))
+			}
+		case "optional", "ignore-unexported", "soft", "flatten":
+			val = g.pickStr([]string{"true", "false", "1", "0", "t", "F", "TRUE", "maybe", "", " true", "yes"}, l+"bv")
+		default:
+			val = "x"
+		}
+		parts = append(parts, fmt.Sprintf("%s:%q", key, val))
+	}
+	return strings.Join(parts, g.pickStr([]string{" ", " ", "  ", "", "\t"}, lbl+"sep"))
+}
+
+// withGoodFields surrounds a hostile parameter field with 0-2 well-formed
+// ones (single keys and groups), so that a rejection happens after part of
+// the object has already been processed.
+func (g *gen) withGoodParams(s int, bad Param, lbl string) Param {
+	var before, after []Param
+	for _, l := range g.drawParamLeaves(s, g.pick(3, lbl+"nb"), 80, true) {
+		before = append(before, l.param())
+	}
+	for _, l := range g.drawParamLeaves(s, g.pick(2, lbl+"na"), 80, true) {
+		after = append(after, l.param())
+	}
+	fields := append(append(before, bad), after...)
+	if g.pct(25, lbl+"nest") {
+		// the hostile field sits in a nested object
+		return Param{IsObj: true, Obj: append(before, append([]Param{{IsObj: true, Obj: []Param{bad}}}, after...)...)}
+	}
+	return Param{IsObj: true, Obj: fields}
+}
+
+func (g *gen) withGoodResults(bad Result, lbl string) Result {
+	var fields []Result
+	nb := g.pick(3, lbl+"nb")
+	for i := 0; i < nb; i++ {
+		r := Result{T: g.pickStr(g.k.Types, fmt.Sprintf("%st%d", lbl, i))}
+		switch g.pick(3, fmt.Sprintf("%sk%d", lbl, i)) {
+		case 0:
+			r.Name = fmt.Sprintf("w%d", i)
+		case 1:
+			r.Group = g.pickStr([]string{"g", "h"}, fmt.Sprintf("%sg%d", lbl, i))
+		default:
+			r.Name = fmt.Sprintf("v%d", i)
+		}
+		fields = append(fields, r)
+	}
+	pos := g.pick(len(fields)+1, lbl+"pos")
+	fields = append(fields[:pos], append([]Result{bad}, fields[pos:]...)...)
+	return Result{IsObj: true, Obj: fields}
+}
 
 // types for fields carrying hostile tags: pool types plus a few whose
 // reflect.Type has no Elem()
@@ -88,14 +159,22 @@ func (g *gen) genBadProvide(s int) Op {
 	case 8: // hostile parameter type
 		f.P = append(f.P, g.hostParam("hp"))
 	case 9: // malformed tag on a result-object field
-		f.R = []Result{{IsObj: true, Obj: []Result{{T: g.pickStr(g.k.Types, "rt"), Tag: g.pickStr(hostileTags, "rtag")}}}}
+		bad := Result{T: g.pickStr(g.k.Types, "rt"), Tag: g.genTag("rtag")}
+		if g.pct(30, "rtsl") {
+			bad.Slice, bad.N = true, g.pick(3, "rtn")
+		}
+		f.R = []Result{g.withGoodResults(bad, "rg")}
 	case 10: // malformed tag on a parameter-object field
 		p := g.tagFieldParam("pt")
-		p.Tag = g.pickStr(hostileTags, "ptag")
+		p.Tag = g.genTag("ptag")
 		if g.pct(50, "pslice") {
 			p.Group = "g" // slice-typed field
 		}
-		f.P = append(f.P, Param{IsObj: true, Obj: []Param{p}})
+		if g.pct(20, "pobjtag") {
+			// the tag sits on a field that is itself a parameter object
+			p = Param{IsObj: true, Obj: []Param{{T: "T0"}}, Tag: p.Tag}
+		}
+		f.P = append(f.P, g.withGoodParams(s, p, "pg"))
 	case 11: // hostile name / group option strings
 		if g.pct(50, "hn") {
 			o.Name = g.pickStr(hostileNames, "hname")
@@ -127,7 +206,7 @@ func (g *gen) genBadProvide(s int) Op {
 		f.P = nil
 		f.Var = g.pickStr(g.k.Types, "vt")
 	case 19: // result object nested in result object with malformed inner tag
-		f.R = []Result{{IsObj: true, Obj: []Result{{IsObj: true, Obj: []Result{{T: "T0", Tag: g.pickStr(hostileTags, "rtag2")}}}, {T: "T1"}}}}
+		f.R = []Result{{IsObj: true, Obj: []Result{{IsObj: true, Obj: []Result{{T: "T0", Tag: g.genTag("rtag2")}}}, {T: "T1"}}}}
 	case 20: // Export with hostile things
 		o.Export = true
 		f.R = []Result{g.hostResult("hr4")}
@@ -171,7 +250,11 @@ func (g *gen) genBadDecorate(s int) Op {
 	case 4: // hostile param
 		f.P = append(f.P, g.hostParam("dhp"))
 	case 5: // malformed tags
-		f.R = []Result{{IsObj: true, Obj: []Result{{T: "T0", Tag: g.pickStr(hostileTags, "dtag")}}}}
+		bad := Result{T: "T0", Tag: g.genTag("dtag")}
+		if g.pct(40, "dtsl") {
+			bad.Slice, bad.N = true, g.pick(3, "dtn")
+		}
+		f.R = []Result{g.withGoodResults(bad, "dg")}
 	case 6: // same key twice
 		f.R = []Result{{T: "T0"}, {T: "T0"}}
 	case 7: // no results
@@ -179,8 +262,11 @@ func (g *gen) genBadDecorate(s int) Op {
 		f.Err = g.pct(50, "de")
 	default:
 		p := g.tagFieldParam("dpt")
-		p.Tag = g.pickStr(hostileTags, "dptag")
-		f.P = append(f.P, Param{IsObj: true, Obj: []Param{p}})
+		p.Tag = g.genTag("dptag")
+		if g.pct(50, "dpslice") {
+			p.Group = "g"
+		}
+		f.P = append(f.P, g.withGoodParams(s, p, "dpg"))
 	}
 	op := Op{K: OpDecorate, S: s, F: f}
 	if g.pct(30, "dinfo") {
@@ -198,10 +284,13 @@ func (g *gen) genBadInvoke(s int) Op {
 		f.P = []Param{g.hostParam("ihp")}
 	case 2:
 		p := g.tagFieldParam("ipt")
-		p.Tag = g.pickStr(hostileTags, "itag")
-		f.P = []Param{{IsObj: true, Obj: []Param{p}}}
+		p.Tag = g.genTag("itag")
+		if g.pct(40, "ipslice") {
+			p.Group = "g"
+		}
+		f.P = []Param{g.withGoodParams(s, p, "ipg")}
 	case 3:
-		f.P = []Param{{IsObj: true, Obj: []Param{{T: "T0", Group: "g", Tag: g.pickStr(hostileTags, "itag2")}}}}
+		f.P = []Param{{IsObj: true, Obj: []Param{{T: "T0", Group: "g", Tag: g.genTag("itag2")}}}}
 	case 4:
 		f.P = nil
 		f.Var = "T0"
